@@ -185,8 +185,16 @@ for _name, _kd in [("one key ascending", [("a", 1)]), ("one key descending", [("
            lambda run: ((l,) for l in full_lists(3 if run.tier == "thorough" else 3)),
            (lambda kd: lambda d: d.sort(**dict(kd)))(_kd), (lambda kd: lambda l: sort_oracle(l, kd))(_kd), B)
 
+def _hash_colliding_lists():
+    """keys whose hashes collide in CPython although the values differ: -1 / -2, 0 / 2**61 - 1, 1.0 == 1 == True (equal, same hash)"""
+    pool = [-1, -2, 0, 2 ** 61 - 1, True, 1.0]
+    for n in range(1, 4):
+        for combo in itertools.product(pool, repeat=n):
+            yield [{"a": v, "b": i} for i, v in enumerate(combo)]
+
+
 simple("dataiter/list_of_dicts.py::ListOfDicts.unique[one key]",
-       lambda run: ((l,) for l in full_lists(3)),
+       lambda run: itertools.chain(((l,) for l in full_lists(3)), ((l,) for l in _hash_colliding_lists())),
        lambda d: d.unique("a"),
        lambda l: [x for i, x in enumerate(l) if not any(y["a"] == x["a"] for y in l[:i])], B)
 
@@ -436,6 +444,34 @@ operator_use_driver("dataiter/list_of_dicts.py::ListOfDicts.__getitem__[obsolete
 operator_use_driver("dataiter/list_of_dicts.py::ListOfDicts.__add__[obsolete receiver: + is a use]", ["+", "*", "copy.copy"])
 
 
+# ---- plain dicts handed to the constructor / extend / append / insert: every item of the result supports attribute access ----
+@driver("dataiter/list_of_dicts.py::ListOfDicts.extend[plain list / tuple / generator of plain dicts]")
+def plain_dict_arguments(run):
+    run.bound = "lists of <= 2 dicts; extend with a plain list / tuple / generator / ListOfDicts of <= 2 dicts, append / insert of a plain dict, the constructor from plain dicts"
+    from attd import AttributeDict
+    small = [l for l in lists(2)]
+    gen = ((a, b, how) for a in small for b in small for how in ("list", "tuple", "generator", "ListOfDicts"))
+    for a, b, how in run.inputs(gen):
+        try:
+            arg = {"list": lambda: copy.deepcopy(b), "tuple": lambda: tuple(copy.deepcopy(b)), "generator": lambda: (dict(x) for x in b),
+                   "ListOfDicts": lambda: mk(b)}[how]()
+            got = mk(a).extend(arg)
+            ok = isinstance(got, ListOfDicts) and plain(got) == a + b and all(isinstance(x, AttributeDict) for x in got)
+            for x in got:                          # attribute access on every item, as in chained lambdas
+                for k in x:
+                    ok = ok and getattr(x, k) == x[k]
+            if b:
+                g2 = mk(a).append(dict(b[0]))
+                g3 = mk(a).insert(0, dict(b[0]))
+                ok = ok and all(isinstance(x, AttributeDict) for x in g2) and all(isinstance(x, AttributeDict) for x in g3)
+                ok = ok and plain(g2) == a + [b[0]] and plain(g3) == [b[0]] + a
+            ok = ok and all(isinstance(x, AttributeDict) for x in ListOfDicts(copy.deepcopy(a)))
+            obs = [type(x).__name__ for x in got]
+        except Exception as e:
+            ok, obs = False, f"raised {type(e).__name__}: {e}"
+        run.check([a, b, how], ok, expected="items of self then other, every item an AttributeDict", got=obs, clause="plain dicts become attribute-access items")
+
+
 # ---- methods without a deductive contract (C15): rename, *, unique() without keys, three keys ------------------------------
 _RENAMES = [{"c": "a"}, {"a": "b", "b": "a"}, {"c": "a", "a": "b"}, {"z": "q"}, {"b": "a", "c": "b"}]
 
@@ -653,6 +689,42 @@ def lod_aggregate_driver(run):
                     ps=[x["p"] for x in l if tuple(x[b] for b in by) == k],
                     first=[x["p"] for x in l if tuple(x[b] for b in by) == k][0]) for k in keys]
         run.check([l, by], plain(got) == exp and plain(data) == before, expected=exp, got=plain(got), clause="aggregate")
+
+
+# ---- joins whose right-hand items carry NOTHING but the key (a whitelist): a match that adds no entry is still a match -----------
+@driver(LP + "inner_join[right items hold only the key]")
+def lod_join_key_only(run):
+    ml_ = 3 if run.tier == "thorough" else 2
+    run.bound = f"pairs of lists of <= {ml_} items, key in {{None,0,1}}; right items are key-only or carry one payload entry; left / inner / semi / anti join, same-named and renamed key"
+    def rights(rk):
+        opts = [{rk: v} for v in (None, 0, 1)] + [{rk: 0, "q": 7}]
+        for n in range(ml_ + 1):
+            for combo in itertools.product(range(len(opts)), repeat=n):
+                yield [dict(opts[c]) for c in combo]
+    gen = ((a, b, rk) for rk in ("k", "k2") for a in keyed_lists(ml_) for b in rights(rk))
+    for a, b, rk in run.inputs(gen):
+        by = "k" if rk == "k" else ("k", "k2")
+
+        def first(i):
+            for j, y in enumerate(b):
+                if y[rk] == a[i]["k"]:
+                    return j
+            return None
+        m = [first(i) for i in range(len(a))]
+        merged = [dict(a[i], **({k: v for k, v in b[m[i]].items() if k != rk} if m[i] is not None else {})) for i in range(len(a))]
+        try:
+            import contextlib, io
+            with contextlib.redirect_stdout(io.StringIO()):
+                Bl = mk(b)
+                ok = plain(mk(a).left_join(Bl, by)) == merged
+                ok = ok and plain(mk(a).inner_join(Bl, by)) == [merged[i] for i in range(len(a)) if m[i] is not None]
+                ok = ok and plain(mk(a).semi_join(Bl, by)) == [a[i] for i in range(len(a)) if m[i] is not None]
+                ok = ok and plain(mk(a).anti_join(Bl, by)) == [a[i] for i in range(len(a)) if m[i] is None]
+                ok = ok and plain(Bl) == b
+                obs = plain(mk(a).inner_join(mk(b), by))
+        except Exception as e:
+            ok, obs = False, f"raised {type(e).__name__}: {e}"
+        run.check([a, b, rk], ok, expected=[merged[i] for i in range(len(a)) if m[i] is not None], got=obs, clause="joins with key-only right items follow the relational definition")
 
 
 # ---- joins on TWO keys (one same-named, one renamed): relational definition on (k, h) pairs -------------------------------
